@@ -12,7 +12,7 @@
 use std::io::{BufRead, BufReader};
 
 use serde_json::{json, Value};
-use surrealkv::{Error, Mode, Transaction, Tree, TreeBuilder};
+use surrealkv::{Error, LSMIterator, Mode, Transaction, Tree, TreeBuilder};
 use verif_harness::keys::{key_bytes, val_bytes};
 use verif_harness::out::Summary;
 
@@ -184,6 +184,74 @@ fn run_program(cx: &mut Ctx, prog: &Value, sum: &mut Summary, commit_at_end: boo
 				Err(e) => {
 					if !want.starts_with("Err") {
 						bad(sum, "probe_read_rejected", ops.len(), want, format!("{e:?}"));
+						return;
+					}
+				}
+			}
+		}
+	}
+
+	// Range reads reflect the pending writes as well: forward and backward scans over the program's keys, and a
+	// seek to every key (present, deleted or pending), must agree with the same view.
+	if let Some(view) = prog["view"].as_object() {
+		if view.values().all(|v| !v.as_str().unwrap_or("").starts_with("Err")) {
+			let mut want: Vec<(Vec<u8>, Vec<u8>)> = view
+				.iter()
+				.filter(|(_, v)| v.as_str().unwrap() != "ABSENT")
+				.map(|(k, v)| (pk(&prefix, k), val_bytes(v.as_str().unwrap())))
+				.collect();
+			want.sort();
+			let mut hi = prefix.clone();
+			hi.extend_from_slice(b"\xff\xff\xff");
+			let collect = |fwd: bool| -> Result<Vec<(Vec<u8>, Vec<u8>)>, String> {
+				let mut it = txn.range(prefix.clone(), hi.clone()).map_err(|e| e.to_string())?;
+				let mut out = Vec::new();
+				let mut ok = if fwd { it.seek_first() } else { it.seek_last() }.map_err(|e| e.to_string())?;
+				while ok && it.valid() && out.len() < 100 {
+					out.push((it.key().user_key().to_vec(), it.value().map_err(|e| e.to_string())?));
+					ok = if fwd { it.next() } else { it.prev() }.map_err(|e| e.to_string())?;
+				}
+				if !fwd {
+					out.reverse();
+				}
+				Ok(out)
+			};
+			for fwd in [true, false] {
+				match collect(fwd) {
+					Ok(got) if got == want => {}
+					Ok(got) => {
+						bad(sum, if fwd { "range_scan_wrong" } else { "reverse_range_scan_wrong" }, ops.len(),
+							&format!("{:?}", want.iter().map(|(k, _)| verif_harness::keys::hex(k)).collect::<Vec<_>>()),
+							format!("{:?}", got.iter().map(|(k, v)| format!("{}={}", verif_harness::keys::hex(k), verif_harness::keys::hex(v))).collect::<Vec<_>>()));
+						return;
+					}
+					Err(e) => {
+						bad(sum, "range_scan_error", ops.len(), "ok", e);
+						return;
+					}
+				}
+			}
+			for kn in view.keys() {
+				let target = pk(&prefix, kn);
+				let exp = want.iter().find(|(k, _)| *k >= target).cloned();
+				let got = (|| -> Result<Option<(Vec<u8>, Vec<u8>)>, String> {
+					let mut it = txn.range(prefix.clone(), hi.clone()).map_err(|e| e.to_string())?;
+					let ok = it.seek(&target).map_err(|e| e.to_string())?;
+					if ok && it.valid() {
+						Ok(Some((it.key().user_key().to_vec(), it.value().map_err(|e| e.to_string())?)))
+					} else {
+						Ok(None)
+					}
+				})();
+				match got {
+					Ok(g) if g == exp => {}
+					Ok(g) => {
+						bad(sum, "range_seek_wrong", ops.len(), &format!("{:?}", exp.map(|(k, _)| verif_harness::keys::hex(&k))),
+							format!("{:?}", g.map(|(k, v)| format!("{}={}", verif_harness::keys::hex(&k), verif_harness::keys::hex(&v)))));
+						return;
+					}
+					Err(e) => {
+						bad(sum, "range_seek_error", ops.len(), "ok", e);
 						return;
 					}
 				}
